@@ -29,6 +29,25 @@
    Reading of seq_cst as in LRViews.v: a SeqCst load reads the newest message of its location when every
    store / RMW site of that location is SeqCst, otherwise any coherence-allowed message; RMWs (CAS, also
    a failing one) read the newest message.
+   Ghost: stp (a record's position in the log = stamp of its CAS message), crt, pubv, wm, freed.
+   Results (N = bound on thread ids, arbitrary; tr = any list of actions):
+     rcu_log_publication        trace_ok N rcu_orders init tr -> race (run N rcu_orders init tr) = false
+     rcu_log_sufficient_orders  the same for ANY orders in which both CASes release and acquire,
+                                owner.store(nullptr) releases and the scan's owner load acquires (all other
+                                sites, the three relaxed ones included, may be anything)
+     rcu_scan_reads_newest      the scan's load of next (the field the relaxed store wrote) reads the newest message
+     reclaim_after_release      (in section) a reclaimer's clock dominates the release clock of every record below its own
+     refutations (conforming traces ending in race = true, same traces race-free with rcu_orders):
+       rcu_relaxed_cas_refuted, rcu_relaxed_erase_cas_refuted, rcu_relaxed_owner_store_refuted,
+       rcu_relaxed_scan_owner_refuted
+     rcu_tail_relaxed_ok        push_back's relaxed load of m_tail under the mutex reads the newest store
+                                (rcu_tail_unlocked_load_stale: not so without the mutex)
+   Proof: one invariant [Inv] over conforming traces: the log is a list in stamp order (next of the record
+   with stamp k is the record with stamp k-1, or null at the water mark wm), released clocks of the CAS
+   messages grow with the stamps (release sequences), a scanning thread has acquired the owner release of
+   every record it passed, at most one thread reclaims (recl_unique) and nothing registered lies below it,
+   every read of an erased node is covered by a registered reader or by the release clock of a record that
+   is still in the log below the erase record.
    NOTE for importers: short names (st, step, init, run, pc ...) - Require without Import and qualify. *)
 From Coq Require Import List Arith ZArith Lia Bool.
 Import ListNotations.
@@ -397,13 +416,16 @@ Section Sufficient.
              (forall m, pcT s t = UFr n m -> nxt_ok s (pred n) m);
     I_nod : forall x,
             (fwhen (nods s x) = 0 \/ (pub s x /\ forall u r, ownT s u = S r -> stp s x < stp s r)) /\
-            forall u, fR (nods s x) u = 0 \/
+            (kind s x = true -> freed s x = false ->
+             forall u, fR (nods s x) u = 0 \/
                       (exists r, ownT s u = S r /\ stp s r < stp s x /\ fR (nods s x) u <= clk s u u) \/
                       (exists y, kind s y = false /\ 0 < stp s y < stp s x /\ freed s y = false /\
                                  ((exists t, ownT s t = S y /\ fR (nods s x) u <= clk s t u) \/
-                                  (exists v, rel s y v /\ fR (nods s x) u <= v u)));
+                                  (exists v, rel s y v /\ fR (nods s x) u <= v u))));
     I_cas : forall t x g e, pcT s t = RCas x g e -> nvl s (L_nx x) = g;
-    I_race : race s = false
+    I_race : race s = false;
+    I_nodw : forall x, fwhen (nods s x) = 0 \/ freed s x = true \/
+                       exists u, pcT s u = UNxF (S x) \/ exists m, pcT s u = UFr (S x) m
   }.
 
   Lemma pub_init x : ~ pub init x.
@@ -461,7 +483,7 @@ Section Sufficient.
     assert (PC : forall u, u <> t -> pcT s' u = pcT s u).
     { intros u Hu. unfold s', upd_t, pcT. cbn. rewrite fupd_ne by exact Hu. reflexivity. }
     assert (PCt : pcT s' t = pc T) by (unfold s', upd_t, pcT; cbn; rewrite fupd_eq; reflexivity).
-    destruct I as [J1 J2 J3 J4 J5 J6 J7 J8 J9 J10 J11 J12 J13 J14 J15 J16 J17 J18 J19 J20 J21].
+    destruct I as [J1 J2 J3 J4 J5 J6 J7 J8 J9 J10 J11 J12 J13 J14 J15 J16 J17 J18 J19 J20 J21 J22].
     constructor; try assumption.
     - intros u x e H. eqd u t.
       + rewrite PCt in H. rewrite OW. apply J9. apply Hreg. exact H.
@@ -494,12 +516,14 @@ Section Sufficient.
         intros y Hy1 Hy2. destruct (B y Hy1 Hy2); [left; auto|right; apply PM; auto].
     - intros x. destruct (J19 x) as [A B]. split.
       + destruct A as [A|[A0 A]]; [left; exact A|right; split; [exact A0|]]. intros u r H. rewrite OW in H. eapply A; eauto.
-      + intros u. destruct (B u) as [B1|[(r & R1 & R2 & R3)|(y & Y1 & Y2 & Y3 & Y4)]]; [left; exact B1|right; left|right; right].
+      + intros Hk Hf u. destruct (B Hk Hf u) as [B1|[(r & R1 & R2 & R3)|(y & Y1 & Y2 & Y3 & Y4)]]; [left; exact B1|right; left|right; right].
         * exists r. rewrite OW. split; [exact R1|]. split; [exact R2|]. eapply Nat.le_trans; [exact R3|apply CM].
         * exists y. split; [exact Y1|]. split; [exact Y2|]. split; [exact Y3|]. destruct Y4 as [(t' & T1 & T2)|Y4]; [left|right; exact Y4].
           exists t'. rewrite OW. split; [exact T1|]. eapply Nat.le_trans; [exact T2|apply CM].
     - intros u x g e H. eqd u t; [rewrite PCt in H; apply (Hcas x g e H)|rewrite PC in H by exact E; apply (J20 u x g e H)].
     - reflexivity.
+    - intros x. destruct (J22 x) as [A|[A|(u & A)]]; [left; exact A|right; left; exact A|right; right].
+      exists u. eqd u t; [rewrite PCt; apply Hrp; exact A|rewrite PC by exact E; exact A].
   Qed.
 
   Lemma lidx_bounds m ssc h c sn ch : sn <= length h ->
@@ -991,7 +1015,7 @@ Section Sufficient.
         rewrite (E1 y0) by (apply PX; exact P0). intros u r H. destruct (OWS u r H) as [(-> & -> & ->)|[Hne H0]].
         * rewrite E2. specialize (SL y0). lia.
         * rewrite E1 by exact Hne. eapply A; eauto.
-      + intros u. destruct (B u) as [B1|[(r & R1 & R2 & R3)|(y & Y1 & Y2 & Y3 & Y4)]]; [left; exact B1|right; left|right; right].
+      + intros Hk Hf u. destruct (B Hk Hf u) as [B1|[(r & R1 & R2 & R3)|(y & Y1 & Y2 & Y3 & Y4)]]; [left; exact B1|right; left|right; right].
         * assert (y0 <> x) by (intros ->; lia). destruct (I_own _ I u r R1) as (_ & Pr & _).
           exists r. rewrite (E1 y0), (E1 r) by (try assumption; apply PX; exact Pr).
           split; [apply OWK; exact R1|]. split; [exact R2|eapply Nat.le_trans; [exact R3|apply CM]].
@@ -1004,6 +1028,8 @@ Section Sufficient.
     - (* I_cas *) intros u y g0 e0 H. assert (u <> t) by (intros ->; rewrite PCt in H; discriminate).
       rewrite PC in H by assumption. unfold nvl. rewrite HN. apply (I_cas _ I u y g0 e0 H).
     - apply (I_race _ I).
+    - intros y. change (nods s' y) with (nods s y). change (freed s' y) with (freed s y). destruct (I_nodw _ I y) as [A|[A|(u & A)]]; [left; exact A|right; left; exact A|right; right].
+      exists u. assert (u <> t) by (intros ->; unfold pcT in A; rewrite Ep in A; destruct A as [A|[m0 A]]; discriminate). rewrite PC by assumption. exact A.
   Qed.
 
   Lemma step_ACas s t spur : Inv s -> ok s (ACas t spur) -> Inv (step s (ACas t spur)).
@@ -1040,7 +1066,7 @@ Section Sufficient.
     assert (HX : hs s' (L_nx x) = store_msg m t (clk s t) v :: hs s (L_nx x)) by (unfold s'; cbn [hs]; rewrite fupd_eq; reflexivity).
     assert (PX : forall y, pub s y -> y <> x) by (intros y Py ->; unfold pub in Py; lia).
     assert (RL : forall y w, rel s' y w <-> rel s y w) by (intros y w; unfold rel; rewrite HO; tauto).
-    destruct I as [J1 J2 J3 J4 J5 J6 J7 J8 J9 J10 J11 J12 J13 J14 J15 J16 J17 J18 J19 J20 J21].
+    destruct I as [J1 J2 J3 J4 J5 J6 J7 J8 J9 J10 J11 J12 J13 J14 J15 J16 J17 J18 J19 J20 J21 J22].
     constructor; try assumption.
     - intros u l. unfold s'. cbn [seen hs]. specialize (J1 u l). destruct (Nat.eq_dec l (L_nx x)) as [->|Hl].
       + rewrite fupd_eq. cbn [length]. unfold fupd at 1. eqd u t; [rewrite fupd_eq; lia|lia].
@@ -1060,8 +1086,8 @@ Section Sufficient.
       + intros Hb. destruct (G Hb) as [Q|(w & Q1 & Q2)]; [left; exact Q|right; exists w; split; [apply RL; exact Q1|exact Q2]].
     - intros u r n H1 H2. destruct (J18 u r n H1 H2) as (A & B & C & D). split; [exact A|]. split; [|split; [exact C|exact D]].
       intros y Py Hy. destruct (B y Py Hy) as [Q|[Q|(w & Q1 & Q2)]]; [left; exact Q|right; left; exact Q|right; right; exists w; split; [apply RL; exact Q1|exact Q2]].
-    - intros y0. destruct (J19 y0) as [A B]. split; [exact A|]. intros u.
-      destruct (B u) as [B1|[B1|(y & Y1 & Y2 & Y3 & [Y4|(w & Y4 & Y5)])]]; [left; exact B1|right; left; exact B1|right; right|right; right].
+    - intros y0. destruct (J19 y0) as [A B]. split; [exact A|]. intros Hk Hf u.
+      destruct (B Hk Hf u) as [B1|[B1|(y & Y1 & Y2 & Y3 & [Y4|(w & Y4 & Y5)])]]; [left; exact B1|right; left; exact B1|right; right|right; right].
       + exists y. auto.
       + exists y. split; [exact Y1|]. split; [exact Y2|]. split; [exact Y3|]. right. exists w. split; [apply RL; exact Y4|exact Y5].
     - intros u y g0 e0 H. change (pcT s' u) with (pcT s u) in H. unfold nvl. rewrite HN; [apply (J20 u y g0 e0 H)|].
@@ -1088,3 +1114,695 @@ Section Sufficient.
     - discriminate.
     - intros x0 g0 e0 H. inversion H; subst x0 g0 e0. unfold nvl, s1. cbn [hs]. rewrite fupd_eq. unfold read_val. cbn. apply zp_pz.
   Qed.
+
+  Lemma alloc_inv s t (e : bool) : Inv s -> (if e then pcT s t = Held else pcT s t = Idle) -> Inv (alloc N s t e).
+  Proof.
+    intros I Hp. unfold alloc. cbv zeta. remember (nrec s) as x eqn:Ex.
+    destruct (I_fresh _ I x ltac:(lia)) as (F1 & F2 & F3 & F4 & F5 & F6).
+    assert (Hw : snd (ft_write N t (clk s t) (recs s x)) = true).
+    { apply ft_write_ok; rewrite F1; cbn; unfold vzero; intros; lia. }
+    destruct (ft_write N t (clk s t) (recs s x)) as [f okw] eqn:Ew. cbn in Hw. subst okw.
+    assert (Ef : f = Ft t (clk s t t) vzero) by (unfold ft_write in Ew; inversion Ew; reflexivity).
+    rewrite (I_race _ I). cbn [negb orb]. set (s' := St _ _ _ _ _ _ _ _ _ _ _ _ _ _).
+    assert (Hown : ownT s' t = ownT s t) by (unfold s', ownT; cbn [ths]; rewrite fupd_eq; reflexivity).
+    assert (OW : forall u, ownT s' u = ownT s u) by (intros u; eqd u t; [exact Hown|unfold s', ownT; cbn [ths]; rewrite fupd_ne by exact E; reflexivity]).
+    assert (PC : forall u, u <> t -> pcT s' u = pcT s u) by (intros u Hu; unfold s', pcT; cbn [ths]; rewrite fupd_ne by exact Hu; reflexivity).
+    assert (PCt : pcT s' t = RLd x e) by (unfold s', pcT; cbn [ths]; rewrite fupd_eq; reflexivity).
+    assert (CM : forall u, vle (clk s u) (clk s' u)).
+    { intros u. unfold s'. cbn [clk]. unfold fupd. eqd u t; [apply vle_inc|apply vle_refl]. }
+    assert (PX : forall y, pub s y -> y <> x) by (intros y Py ->; unfold pub in Py; lia).
+    assert (KD : forall y, y <> x -> kind s' y = kind s y) by (intros y Hy; unfold s'; cbn [kind]; rewrite fupd_ne by exact Hy; reflexivity).
+    assert (CR : forall y, y <> x -> crt s' y = crt s y) by (intros y Hy; unfold s'; cbn [crt]; rewrite fupd_ne by exact Hy; reflexivity).
+    assert (RC : forall y, y <> x -> recs s' y = recs s y) by (intros y Hy; unfold s'; cbn [recs]; rewrite fupd_ne by exact Hy; reflexivity).
+    assert (PM : forall u y, pub s y -> passed s u y -> passed s' u y).
+    { intros u y Py [H|(v & H1 & H2)]; [left; rewrite KD by (apply PX; exact Py); exact H|right]. exists v. split; [exact H1|]. eapply vle_trans; [exact H2|apply CM]. }
+    assert (Hnin : inrec (pcT s t) = None /\ inscan (pcT s t) = None /\ regx (pcT s t) = None) by (destruct e; rewrite Hp; auto).
+    destruct Hnin as (Hn1 & Hn2 & Hn3).
+    destruct I as [J1 J2 J3 J4 J5 J6 J7 J8 J9 J10 J11 J12 J13 J14 J15 J16 J17 J18 J19 J20 J21 J22].
+    constructor; try assumption.
+    - (* I_stp *) intros y. destruct (J3 y) as [A B]. split; [exact A|]. intros Py. change (nrec s') with (S x). specialize (B Py). lia.
+    - (* I_fresh *) intros y Hy. change (nrec s') with (S x) in Hy. assert (y <> x) by lia. rewrite RC by assumption. apply J8. lia.
+    - (* I_reg *) intros u y e0 H. change (nrec s') with (S x). rewrite OW. eqd u t.
+      + rewrite PCt in H. inversion H; subst y e0. change (stp s' x) with (stp s x). unfold s'. cbn [crt kind]. rewrite !fupd_eq.
+        split; [lia|]. split; [exact F3|]. split; [reflexivity|]. split; [reflexivity|].
+        pose proof (J10 t) as Q. destruct e; rewrite Hp in Q; exact Q.
+      + rewrite PC in H by exact E. destruct (J9 u y e0 H) as (A & B & C & D & G). assert (y <> x) by lia.
+        rewrite KD, CR by assumption. split; [lia|auto].
+    - (* I_pc *) intros u. rewrite OW. eqd u t; [rewrite PCt; exact I|rewrite PC by exact E; apply J10].
+    - (* I_rec *) intros y Hy Fy. change (nrec s') with (S x) in Hy. change (freed s' y) with (freed s y) in Fy. change (pubv s' y) with (pubv s y).
+      destruct (Nat.eq_dec y x) as [->|Hne].
+      + unfold s'. cbn [recs crt clk]. rewrite !fupd_eq. subst f. cbn [fwho fwhen fR]. rewrite vinc_self.
+        split; [reflexivity|]. split; [apply Nat.le_succ_diag_r|]. split; [intros P; exfalso; unfold pub, s' in P; cbn [stp] in P; rewrite F3 in P; inversion P|]. intros u. left. reflexivity.
+      + rewrite RC, CR by exact Hne. destruct (J11 y) as (A & B & C & D); [lia|exact Fy|].
+        split; [exact A|]. split; [eapply Nat.le_trans; [exact B|apply CM]|]. split; [exact C|].
+        intros u. destruct (D u) as [D1|[D1 D2]]; [left; exact D1|right]. split; [eapply Nat.le_trans; [exact D1|apply CM]|].
+        eqd u t; [exfalso; destruct e; rewrite Hp in D2; destruct D2 as [D2|[m0 D2]]; discriminate|rewrite PC by exact E; exact D2].
+    - (* I_nx *) intros y j m0 H. change (hs s' (L_nx y)) with (hs s (L_nx y)) in H. change (pubv s' y) with (pubv s y).
+      destruct (Nat.eq_dec y x) as [->|Hne]; [rewrite F4 in H; destruct j; discriminate|].
+      rewrite KD, CR by exact Hne. destruct (J12 y j m0 H) as (A & B & C). split; [exact A|]. split; [eapply Nat.le_trans; [exact B|apply CM]|exact C].
+    - (* I_ow *) intros y. change (hs s' (L_ow y)) with (hs s (L_ow y)). change (hs s' (L_nx y)) with (hs s (L_nx y)).
+      destruct (J14 y) as (A & B & C). split; [exact A|]. split.
+      + intros v Hr. destruct (B v Hr) as (B1 & B2 & B3). rewrite KD, CR by (apply PX; exact B2). auto.
+      + intros Hk Py Ho. rewrite KD in Hk by (apply PX; exact Py). destruct (C Hk Py Ho) as [u Hu]. exists u. rewrite OW. exact Hu.
+    - (* I_own *) intros u r H. rewrite OW in H. destruct (J15 u r H) as (A & B & C & D & F & G & K).
+      rewrite KD, CR by (apply PX; exact B). split; [exact A|]. split; [exact B|]. split; [exact C|]. split; [exact D|]. split; [exact F|]. split; [eapply vle_trans; [exact G|apply CM]|exact K].
+    - (* I_free *) intros y. destruct (J16 y) as [A B]. split; [exact A|]. intros Fy. destruct (B Fy) as [P B2]. split; [exact P|].
+      destruct B2 as [B2|(u & r & n & U1 & U2 & U3)]; [left; exact B2|right].
+      assert (u <> t) by (intros ->; congruence). exists u, r, n. rewrite OW, PC by assumption. auto.
+    - (* I_scan *) intros u r n c b H1 H2. rewrite OW in H1. assert (u <> t) by (intros ->; rewrite PCt in H2; discriminate).
+      rewrite PC in H2 by assumption. destruct (J17 u r n c b H1 H2) as (z & A & B & C & D & F & G & K). exists z.
+      split; [exact A|]. split; [exact B|]. split; [exact C|]. split; [exact D|]. split; [|split; [|exact K]].
+      + intros y Py Hy. apply PM; [exact Py|]. apply F; assumption.
+      + intros Hb. apply PM; [exact B|]. apply G. exact Hb.
+    - (* I_recl *) intros u r n H1 H2. rewrite OW in H1. assert (u <> t) by (intros ->; rewrite PCt in H2; discriminate).
+      rewrite PC in H2 |- * by assumption. destruct (J18 u r n H1 H2) as (A & B & C & D). split; [exact A|]. split; [|split; [exact C|exact D]].
+      intros y Py Hy. destruct (B y Py Hy) as [Q|Q]; [left; exact Q|right; apply PM; assumption].
+    - (* I_nod *) intros y0. destruct (J19 y0) as [A B]. split.
+      + destruct A as [A|[P0 A]]; [left; exact A|right; split; [exact P0|]]. intros u r H. rewrite OW in H. eapply A; eauto.
+      + intros Hk Hf u. destruct (Nat.eq_dec y0 x) as [->|Hy0]; [left; change (nods s' x) with (nods s x); rewrite F2; reflexivity|].
+        rewrite KD in Hk by exact Hy0.
+        destruct (B Hk Hf u) as [B1|[(r & R1 & R2 & R3)|(y & Y1 & Y2 & Y3 & Y4)]]; [left; exact B1|right; left|right; right].
+        * exists r. rewrite OW. split; [exact R1|]. split; [exact R2|eapply Nat.le_trans; [exact R3|apply CM]].
+        * assert (y <> x) by (apply PX; unfold pub; lia). exists y. rewrite KD by assumption. split; [exact Y1|]. split; [exact Y2|]. split; [exact Y3|].
+          destruct Y4 as [(t' & T1 & T2)|Y4]; [left|right; exact Y4]. exists t'. rewrite OW. split; [exact T1|eapply Nat.le_trans; [exact T2|apply CM]].
+    - (* I_cas *) intros u y g0 e0 H. assert (u <> t) by (intros ->; rewrite PCt in H; discriminate). rewrite PC in H by assumption. apply (J20 u y g0 e0 H).
+    - reflexivity.
+    - intros y. destruct (J22 y) as [A|[A|(u & A)]]; [left; exact A|right; left; exact A|right; right].
+      exists u. assert (u <> t) by (intros ->; destruct e; rewrite Hp in A; destruct A as [A|[m0 A]]; discriminate). rewrite PC by assumption. exact A.
+  Qed.
+
+  Lemma step_AReg s t : Inv s -> ok s (AReg t) -> Inv (step s (AReg t)).
+  Proof.
+    intros I Hok. destruct (ok_tag _ _ Hok) as [Ht Htag]. cbn [actor at_tag] in *.
+    apply alloc_inv; [exact I|]. unfold pcT in *. destruct (pc (ths s t)); try discriminate. reflexivity.
+  Qed.
+  Lemma step_AEra s t : Inv s -> ok s (AEra t) -> Inv (step s (AEra t)).
+  Proof.
+    intros I Hok. destruct (ok_tag _ _ Hok) as [Ht Htag]. cbn [actor at_tag] in *.
+    apply alloc_inv; [exact I|]. unfold pcT in *. destruct (pc (ths s t)); try discriminate. reflexivity.
+  Qed.
+
+  Lemma step_ARead s t x0 : Inv s -> ok s (ARead t x0) -> Inv (step s (ARead t x0)).
+  Proof.
+    intros I Hok. destruct (ok_tag _ _ Hok) as [Ht Htag]. cbn [actor at_tag] in *.
+    unfold ok, okb in Hok. cbn [actor] in Hok. apply andb_true_iff in Hok as [_ Hok].
+    apply andb_true_iff in Hok as [Hok H3]. apply andb_true_iff in Hok as [H1 H2].
+    apply Nat.ltb_lt in H2, H3.
+    pose proof (I_pc _ I t) as Hq. unfold pcT in Htag, Hq. destruct (pc (ths s t)) eqn:Ep; try discriminate. unfold ownT in Hq.
+    destruct (own (ths s t)) as [|r] eqn:Eo; [congruence|]. cbn [pred] in *.
+    assert (Px : pub s x0) by (unfold pub; lia).
+    destruct (I_nod _ I x0) as [A B].
+    assert (Hr : snd (ft_read t (clk s t) (nods s x0)) = true).
+    { apply ft_read_ok. destruct A as [A|[_ A]]; [rewrite A; lia|]. specialize (A t r Eo). lia. }
+    unfold step. destruct (ft_read t (clk s t) (nods s x0)) as [f okr] eqn:Er. cbn in Hr. subst okr.
+    assert (Ef : f = Ft (fwho (nods s x0)) (fwhen (nods s x0)) (fupd (fR (nods s x0)) t (clk s t t))) by (unfold ft_read in Er; inversion Er; reflexivity).
+    rewrite (I_race _ I). cbn [negb orb]. set (s' := St _ _ _ _ _ _ _ _ _ _ _ _ _ _).
+    destruct I as [J1 J2 J3 J4 J5 J6 J7 J8 J9 J10 J11 J12 J13 J14 J15 J16 J17 J18 J19 J20 J21 J22].
+    constructor; try assumption.
+    - intros y Hy. change (nrec s') with (nrec s) in Hy. assert (y <> x0) by (intros ->; specialize (proj2 (J3 x0) Px); lia).
+      unfold s'. cbn [recs nods stp hs freed]. rewrite fupd_ne by assumption. apply J8. exact Hy.
+    - intros y. unfold s'. cbn [nods]. change (pub s' y) with (pub s y). change (stp s' y) with (stp s y).
+      destruct (Nat.eq_dec y x0) as [->|Hne]; [rewrite fupd_eq|rewrite fupd_ne by exact Hne; apply J19].
+      subst f. cbn [fwhen fR]. split; [exact A|]. intros Hk Hf u. unfold fupd. eqd u t; [|apply (B Hk Hf)].
+      right. left. exists r. split; [exact Eo|]. split; [exact H3|apply Nat.le_refl].
+    - reflexivity.
+    - intros y. unfold s'. cbn [nods]. destruct (Nat.eq_dec y x0) as [->|Hne]; [rewrite fupd_eq; subst f; cbn [fwhen]; apply J22|rewrite fupd_ne by exact Hne; apply J22].
+  Qed.
+
+  Lemma rel_fun s y v w : rel s y v -> rel s y w -> v = w.
+  Proof. intros (m & A & _ & B) (m' & A' & _ & B'). congruence. Qed.
+
+  (* a reclaimer at record x: every reader of x's node is ordered before it, and no registered record is at or below x *)
+  Lemma recl_facts s t r x : Inv s -> ownT s t = S r -> inrec (pcT s t) = Some (S x) ->
+    pub s x /\ wm s <= stp s x < stp s r /\ freed s x = false /\ passed s t x /\
+    (kind s x = true -> forall u, fR (nods s x) u <= clk s t u) /\
+    (forall u r', ownT s u = S r' -> stp s x < stp s r').
+  Proof.
+    intros I Ho Hi. destruct (I_recl _ I t r (S x) Ho Hi) as (R1 & R2 & R3 & _).
+    destruct R1 as [R1|(x' & E & Px & Sx & Fx)]; [discriminate|]. inversion E; subst x'.
+    assert (Pb : passed s t x) by (destruct (R2 x Px (proj2 Sx)) as [A|A]; [congruence|exact A]).
+    assert (NA : forall u r', ownT s u = S r' -> stp s r' < stp s r -> False).
+    { intros u r' H Hlt. destruct (I_own _ I u r' H) as (_ & P & F & _).
+      destruct (R2 r' P Hlt) as [A|A]; [congruence|]. exact (active_not_passed s u r' t I H A). }
+    split; [exact Px|]. split; [exact Sx|]. split; [exact Fx|]. split; [exact Pb|]. split.
+    - intros Hk u. destruct (I_nod _ I x) as [_ B]. destruct (B Hk Fx u) as [B1|[(r' & Q1 & Q2 & Q3)|(y & Y1 & Y2 & Y3 & Y4)]]; [lia| |].
+      + exfalso. apply (NA u r' Q1). lia.
+      + assert (Py : pub s y) by (unfold pub; lia).
+        destruct (R2 y Py ltac:(lia)) as [A|A]; [congruence|].
+        destruct Y4 as [(t' & T1 & _)|(v & V1 & V2)]; [exfalso; exact (active_not_passed s t' y t I T1 A)|].
+        destruct A as [A|(w & W1 & W2)]; [congruence|]. rewrite (rel_fun _ _ _ _ V1 W1) in V2. specialize (W2 u). lia.
+    - intros u r' H. destruct (I_own _ I u r' H) as (_ & P & _).
+      destruct (lt_eq_lt_dec (stp s r') (stp s x)) as [[L|E0]|L]; [exfalso; apply (NA u r' H); lia| |exact L].
+      exfalso. apply (I_inj _ I r' x P) in E0. subst r'. exact (active_not_passed s u x t I H Pb).
+  Qed.
+
+  (* the plain cells of record x change under a reclaimer standing at UNxF (S x) *)
+  Lemma cells_inv s t x f f2 : Inv s -> pcT s t = UNxF (S x) -> pub s x -> freed s x = false ->
+    fwho f = fwho (recs s x) -> fwhen f = fwhen (recs s x) ->
+    (forall u, fR f u = fR (recs s x) u \/ (u = t /\ fR f u <= clk s t t)) ->
+    (f2 = nods s x \/ (forall u, fR f2 u = 0)) -> (forall u r', ownT s u = S r' -> stp s x < stp s r') ->
+    Inv (St (ths s) (clk s) (hs s) (seen s) (nrec s) (kind s) (fupd (recs s) x f) (fupd (nods s) x f2) (race s)
+            (stp s) (crt s) (pubv s) (wm s) (freed s)).
+  Proof.
+    intros I Hp Px Fx W1 W2 W3 W4 W5. set (s' := St _ _ _ _ _ _ _ _ _ _ _ _ _ _).
+    assert (Hx : x < nrec s) by (apply (I_stp _ I x); exact Px).
+    destruct I as [J1 J2 J3 J4 J5 J6 J7 J8 J9 J10 J11 J12 J13 J14 J15 J16 J17 J18 J19 J20 J21 J22].
+    constructor; try assumption.
+    - intros y Hy. change (nrec s') with (nrec s) in Hy. assert (y <> x) by lia. unfold s'. cbn [recs nods stp hs freed].
+      rewrite !fupd_ne by assumption. apply J8. exact Hy.
+    - intros y Hy Fy. unfold s'. cbn [recs]. destruct (Nat.eq_dec y x) as [->|Hne]; [rewrite fupd_eq|rewrite fupd_ne by exact Hne; apply (J11 y Hy Fy)].
+      destruct (J11 x Hy Fy) as (A & B & C & D). rewrite W1, W2. split; [exact A|]. split; [exact B|]. split; [exact C|].
+      intros u. destruct (W3 u) as [E|[-> E]]; [rewrite E; apply D|]. right. split; [exact E|left; exact Hp].
+    - intros y. unfold s'. cbn [nods]. destruct (Nat.eq_dec y x) as [->|Hne]; [rewrite fupd_eq|rewrite fupd_ne by exact Hne; apply J19].
+      destruct W4 as [->|W4]; [apply J19|]. split; [right; split; [exact Px|exact W5]|]. intros _ _ u. left. apply W4.
+    - intros y. unfold s'. cbn [nods]. destruct (Nat.eq_dec y x) as [->|Hne]; [|rewrite fupd_ne by exact Hne; apply J22].
+      right. right. exists t. left. exact Hp.
+  Qed.
+
+  Lemma step_ARd s t : Inv s -> ok s (ARd t) -> Inv (step s (ARd t)).
+  Proof.
+    intros I Hok. destruct (ok_tag _ _ Hok) as [Ht Htag]. cbn [actor at_tag] in *.
+    unfold ok, okb in Hok. cbn [actor] in Hok. apply andb_true_iff in Hok as [_ Hok].
+    unfold pcT in Htag. destruct (pc (ths s t)) eqn:Ep; try discriminate. clear Htag.
+    apply negb_true_iff, Nat.eqb_neq in Hok. destruct n as [|x]; [congruence|]. clear Hok.
+    pose proof (I_pc _ I t) as Hq. unfold pcT in Hq. rewrite Ep in Hq.
+    destruct (ownT s t) as [|r] eqn:Eo; [congruence|]. clear Hq.
+    assert (Hin : inrec (pcT s t) = Some (S x)) by (unfold pcT; rewrite Ep; reflexivity).
+    destruct (recl_facts s t r x I Eo Hin) as (Px & Sx & Fx & Pb & Rd & Ab).
+    unfold step. rewrite Ep. cbn [pred].
+    assert (Hk : fwhen (recs s x) <= clk s t (fwho (recs s x))) by (apply Nat.leb_le; eapply (hbk_ok s t r x); eauto; lia).
+    assert (Hr : snd (ft_read t (clk s t) (recs s x)) = true) by (apply ft_read_ok; exact Hk).
+    destruct (ft_read t (clk s t) (recs s x)) as [f okr] eqn:Er. cbn in Hr. subst okr.
+    assert (Ef : f = Ft (fwho (recs s x)) (fwhen (recs s x)) (fupd (fR (recs s x)) t (clk s t t))) by (unfold ft_read in Er; inversion Er; reflexivity).
+    set (W := if kind s x then ft_write N t (clk s t) (nods s x) else (nods s x, true)).
+    assert (HW : snd W = true /\ (fst W = nods s x \/ forall u, fR (fst W) u = 0)).
+    { unfold W. destruct (kind s x) eqn:Ek; [|split; [reflexivity|left; reflexivity]]. split; [|right; intros u; reflexivity].
+      apply ft_write_ok; [|intros u _; apply (Rd eq_refl)].
+      destruct (I_nodw _ I x) as [A|[A|(u & A)]]; [lia|congruence|exfalso].
+      assert (Hiu : inrec (pcT s u) = Some (S x)) by (destruct A as [A|[m0 A]]; rewrite A; reflexivity).
+      assert (u <> t) by (intros ->; unfold pcT in A; rewrite Ep in A; destruct A as [A|[m0 A]]; discriminate).
+      pose proof (I_pc _ I u) as Hq. destruct (ownT s u) as [|ru] eqn:Eu; [destruct A as [A|[m0 A]]; rewrite A in Hq; tauto|]. clear Hq.
+      destruct (I_own _ I t r Eo) as (_ & Pr & _).
+      destruct (lt_eq_lt_dec (stp s r) (stp s ru)) as [[L|E0]|L].
+      - exact (active_not_below s t r u ru (S x) I Eo Eu Hiu L).
+      - apply (I_inj _ I r ru Pr) in E0. subst ru. apply H. symmetry. eapply own_inj; eauto.
+      - exact (active_not_below s u ru t r (S x) I Eu Eo Hin L). }
+    destruct W as [f2 okw]. cbn [fst snd] in HW. destruct HW as [-> HW]. rewrite (I_race _ I). cbn [negb orb].
+    assert (I1 : Inv (upd_t s t (Th (UNxF (S x)) (own (ths s t))) (vinc (clk s t) t) (seen s) false)).
+    { apply upd_t_inv; cbn [pc own]; auto.
+      - apply vle_inc.
+      - apply (I_seen _ I).
+      - discriminate.
+      - unfold ownT in Eo. rewrite Eo. split; discriminate.
+      - unfold pcT. rewrite Ep. intros x0 [H|[m0 H]]; discriminate.
+      - unfold pcT. rewrite Ep. intros n0 H. inversion H; subst n0. exists (S x). split; [reflexivity|lia].
+      - discriminate.
+      - intros r' n Hr Hs. unfold ownT in Eo. rewrite Eo in Hr. inversion Hr; subst r'. cbn in Hs. inversion Hs; subst n.
+        destruct (I_recl _ I t r (S x) Eo Hin) as (R1 & R2 & R3 & R4). split; [exact R1|]. split; [|split; [exact R3|discriminate]].
+        intros y Py Hy. destruct (R2 y Py Hy) as [A|A]; [left; exact A|right; apply passed_upd; [apply vle_inc|exact A]].
+      - discriminate. }
+    apply (cells_inv _ t x f f2 I1); auto.
+    - unfold pcT, upd_t. cbn [ths]. rewrite fupd_eq. reflexivity.
+    - subst f. reflexivity.
+    - subst f. reflexivity.
+    - intros u. subst f. cbn [fR recs upd_t clk]. unfold fupd at 1. eqd u t; [right|left; reflexivity].
+      split; [reflexivity|]. rewrite !fupd_eq, vinc_self. lia.
+    - intros u r' H. apply (Ab u r'). unfold ownT, upd_t in H. cbn [ths] in H. unfold fupd in H. eqd u t; [exact H|exact H].
+  Qed.
+
+  (* at most one thread is reclaiming *)
+  Lemma recl_unique s t u r ru n n' : Inv s -> ownT s t = S r -> ownT s u = S ru ->
+    inrec (pcT s t) = Some n -> inrec (pcT s u) = Some n' -> t = u.
+  Proof.
+    intros I Ht Hu It Iu. destruct (I_own _ I t r Ht) as (_ & Pr & _).
+    destruct (lt_eq_lt_dec (stp s r) (stp s ru)) as [[L|E0]|L].
+    - exfalso. exact (active_not_below s t r u ru n' I Ht Hu Iu L).
+    - apply (I_inj _ I r ru Pr) in E0. subst ru. eapply own_inj; eauto.
+    - exfalso. exact (active_not_below s u ru t r n I Hu Ht It L).
+  Qed.
+  Lemma inrec_own s t n : Inv s -> inrec (pcT s t) = Some n -> exists r, ownT s t = S r.
+  Proof.
+    intros I H. pose proof (I_pc _ I t) as Q. destruct (ownT s t) as [|r]; [|exists r; reflexivity].
+    destruct (pcT s t); try discriminate; tauto.
+  Qed.
+  (* no other thread's scan stands on a record below a reclaimer's *)
+  Lemma scan_not_below s t r n u ru z c b : Inv s -> ownT s t = S r -> inrec (pcT s t) = Some n ->
+    ownT s u = S ru -> inscan (pcT s u) = Some (S z, c, b) -> stp s z < stp s r -> False.
+  Proof.
+    intros I Ht It Hu Iu Hlt. destruct (I_scan _ I u ru (S z) c b Hu Iu) as (z' & E & Pz & Sz & _ & Pa & _).
+    inversion E; subst z'. destruct (I_own _ I t r Ht) as (_ & Pr & _).
+    destruct (lt_eq_lt_dec (stp s r) (stp s ru)) as [[L|E0]|L].
+    - exact (active_not_passed s t r u I Ht (Pa r Pr (conj Hlt L))).
+    - apply (I_inj _ I r ru Pr) in E0. subst ru. assert (t = u) by (eapply own_inj; eauto). subst u.
+      destruct (pcT s t); discriminate.
+    - exact (active_not_below s u ru t r n I Hu Ht It L).
+  Qed.
+
+  Lemma step_AFr s t : Inv s -> ok s (AFr t) -> Inv (step s (AFr t)).
+  Proof.
+    intros I Hok. destruct (ok_tag _ _ Hok) as [Ht Htag]. cbn [actor at_tag] in *.
+    unfold pcT in Htag. destruct (pc (ths s t)) eqn:Ep; try discriminate. clear Htag.
+    pose proof (I_pc _ I t) as Hq. unfold pcT in Hq. rewrite Ep in Hq. destruct Hq as [Hq Hn0].
+    destruct n as [|x]; [congruence|]. clear Hn0.
+    destruct (ownT s t) as [|r] eqn:Eo; [congruence|]. clear Hq.
+    assert (Hin : inrec (pcT s t) = Some (S x)) by (unfold pcT; rewrite Ep; reflexivity).
+    destruct (recl_facts s t r x I Eo Hin) as (Px & Sx & Fx & Pb & _ & Ab).
+    destruct (I_recl _ I t r (S x) Eo Hin) as (_ & R2 & R3 & R4).
+    specialize (R4 m). unfold pcT in R4. specialize (R4 Ep). cbn [pred] in R4. destruct R4 as [N1 N2].
+    destruct (I_own _ I t r Eo) as (_ & Pr & Fr & _).
+    unfold step. rewrite Ep. cbn [pred].
+    assert (Hx : x < nrec s) by (apply (I_stp _ I x); exact Px).
+    assert (Hw : snd (ft_write N t (clk s t) (recs s x)) = true).
+    { apply ft_write_ok.
+      - apply Nat.leb_le. eapply (hbk_ok s t r x); eauto; lia.
+      - intros u _. destruct (I_rec _ I x Hx Fx) as (_ & _ & _ & D). destruct (D u) as [D1|[D1 D2]]; [lia|].
+        assert (Hiu : inrec (pcT s u) = Some (S x)) by (destruct D2 as [D2|[m0 D2]]; rewrite D2; reflexivity).
+        destruct (inrec_own s u (S x) I Hiu) as [ru Eu].
+        assert (t = u) by (eapply recl_unique; eauto). subst u. exact D1. }
+    destruct (ft_write N t (clk s t) (recs s x)) as [f okw] eqn:Ew. cbn in Hw. subst okw.
+    rewrite (I_race _ I). cbn [negb orb]. set (s' := St _ _ _ _ _ _ _ _ _ _ _ _ _ _).
+    assert (CM : forall u, vle (clk s u) (clk s' u)).
+    { intros u. unfold s'. cbn [clk]. unfold fupd. eqd u t; [apply vle_inc|apply vle_refl]. }
+    assert (OW : forall u, ownT s' u = ownT s u).
+    { intros u. unfold s', ownT. cbn [ths]. unfold fupd. eqd u t; [cbn [own]; reflexivity|reflexivity]. }
+    assert (PC : forall u, u <> t -> pcT s' u = pcT s u) by (intros u Hu; unfold s', pcT; cbn [ths]; rewrite fupd_ne by exact Hu; reflexivity).
+    assert (PCt : pcT s' t = URd m) by (unfold s', pcT; cbn [ths]; rewrite fupd_eq; reflexivity).
+    assert (FR : forall y, y <> x -> freed s' y = freed s y) by (intros y Hy; unfold s'; cbn [freed]; rewrite fupd_ne by exact Hy; reflexivity).
+    assert (FX : freed s' x = true) by (unfold s'; cbn [freed]; rewrite fupd_eq; reflexivity).
+    assert (FM : forall y, freed s y = true -> freed s' y = true) by (intros y Hy; destruct (Nat.eq_dec y x) as [->|Hne]; [exact FX|rewrite FR by exact Hne; exact Hy]).
+    assert (PM : forall u y, passed s u y -> passed s' u y).
+    { intros u y [H|(v & H1 & H2)]; [left; exact H|right]. exists v. split; [exact H1|]. eapply vle_trans; [exact H2|apply CM]. }
+    assert (UQ : forall u n0, inrec (pcT s u) = Some n0 -> u = t).
+    { intros u n0 Hu. destruct (inrec_own s u n0 I Hu) as [ru Eu]. symmetry. eapply recl_unique; eauto. }
+    assert (LM : lowp s m < stp s x).
+    { destruct (Nat.eq_dec (stp s x) (wm s)) as [E|E]; [rewrite (N1 E); cbn; unfold pub in Px; lia|].
+      destruct N2 as (y1 & -> & S1); [lia|]. cbn. unfold pub in Px. lia. }
+    pose proof I as II.
+    destruct I as [J1 J2 J3 J4 J5 J6 J7 J8 J9 J10 J11 J12 J13 J14 J15 J16 J17 J18 J19 J20 J21 J22].
+    constructor; try assumption.
+    - (* I_fresh *) intros y Hy. change (nrec s') with (nrec s) in Hy. assert (y <> x) by lia. unfold s'. cbn [recs nods stp hs freed].
+      rewrite !fupd_ne by assumption. apply J8. exact Hy.
+    - (* I_reg *) intros u y e0 H. rewrite OW. eqd u t; [rewrite PCt in H; discriminate|]. rewrite PC in H by exact E. apply J9. exact H.
+    - (* I_pc *) intros u. rewrite OW. eqd u t; [rewrite PCt; rewrite Eo; discriminate|rewrite PC by exact E; apply J10].
+    - (* I_rec *) intros y Hy Fy. change (nrec s') with (nrec s) in Hy. assert (y <> x) by (intros ->; congruence).
+      rewrite FR in Fy by assumption. unfold s'. cbn [recs]. rewrite fupd_ne by assumption. change (crt s' y) with (crt s y). change (pubv s' y) with (pubv s y).
+      destruct (J11 y Hy Fy) as (A & B & C & D). split; [exact A|]. split; [eapply Nat.le_trans; [exact B|apply CM]|]. split; [exact C|].
+      intros u. destruct (D u) as [D1|[D1 D2]]; [left; exact D1|right]. split; [eapply Nat.le_trans; [exact D1|apply CM]|].
+      eqd u t; [exfalso; unfold pcT in D2; rewrite Ep in D2; destruct D2 as [D2|[m0 D2]]; [discriminate|inversion D2; congruence]|rewrite PC by exact E; exact D2].
+    - (* I_nx *) intros y j m0 H. destruct (J12 y j m0 H) as (A & B & C). split; [exact A|]. split; [eapply Nat.le_trans; [exact B|apply CM]|exact C].
+    - (* I_ow *) intros y. destruct (J14 y) as (A & B & C). split; [exact A|]. split; [exact B|].
+      intros H1 H2 H3. destruct (C H1 H2 H3) as [u Hu]. exists u. rewrite OW. exact Hu.
+    - (* I_own *) intros u r0 H. rewrite OW in H. destruct (J15 u r0 H) as (A & B & C & D & F & G & K).
+      assert (r0 <> x) by (intros ->; specialize (Ab u x H); lia).
+      rewrite FR by assumption. split; [exact A|]. split; [exact B|]. split; [exact C|]. split; [exact D|]. split; [exact F|]. split; [eapply vle_trans; [exact G|apply CM]|exact K].
+    - (* I_free *) intros y. destruct (J16 y) as [A B]. split; [intros P L; apply FM; apply A; assumption|].
+      intros Fy. destruct (Nat.eq_dec y x) as [->|Hne].
+      + split; [exact Px|]. right. exists t, r, m. rewrite OW, PCt. split; [exact Eo|]. split; [reflexivity|]. split; [exact LM|exact (proj2 Sx)].
+      + rewrite FR in Fy by exact Hne. destruct (B Fy) as [P B2]. split; [exact P|]. destruct B2 as [B2|(u & r0 & n & U1 & U2 & U3)]; [left; exact B2|right].
+        assert (u = t) by (apply (UQ u n U2)). subst u. assert (r0 = r) by congruence. subst r0.
+        rewrite Hin in U2. inversion U2; subst n. cbn [lowp] in U3.
+        exists t, r, m. rewrite OW, PCt. split; [exact Eo|]. split; [reflexivity|]. change (lowp s' m) with (lowp s m). change (stp s' y) with (stp s y). change (stp s' r) with (stp s r). lia.
+    - (* I_scan *) intros u ru n c b H1 H2. rewrite OW in H1. assert (u <> t) by (intros ->; rewrite PCt in H2; discriminate).
+      rewrite PC in H2 by assumption. destruct (J17 u ru n c b H1 H2) as (z & A & B & C & D & F & G & K). subst n.
+      assert (z <> x) by (intros ->; apply (scan_not_below s t r (S x) u ru x c b II Eo Hin H1 H2); lia).
+      exists z. rewrite FR by assumption. split; [reflexivity|]. split; [exact B|]. split; [exact C|]. split; [exact D|]. split; [|split; [|exact K]].
+      + intros y Py Hy. apply PM. apply F; assumption.
+      + intros Hb. apply PM. apply G. exact Hb.
+    - (* I_recl *) intros u r0 n H1 H2. rewrite OW in H1.
+      assert (u = t).
+      { eqd u t; [reflexivity|]. rewrite PC in H2 by exact E. apply (UQ u n H2). }
+      subst u. assert (r0 = r) by congruence. subst r0. rewrite PCt in H2 |- *. cbn in H2. inversion H2; subst n.
+      change (wm s') with (wm s). change (lowp s' m) with (lowp s m).
+      split; [|split; [|split; [|discriminate]]].
+      + destruct (Nat.eq_dec (stp s x) (wm s)) as [E|E]; [left; exact (N1 E)|right].
+        destruct N2 as (y1 & Em & S1); [lia|]. exists y1. assert (y1 <> x) by (intros ->; unfold pub in Px; lia).
+        assert (Py1 : pub s y1) by (unfold pub; lia).
+        split; [exact Em|]. split; [exact Py1|]. split; [change (stp s' y1) with (stp s y1); change (stp s' r) with (stp s r); lia|].
+        rewrite FR by assumption. destruct (freed s y1) eqn:F1; [exfalso|reflexivity].
+        destruct (J16 y1) as [_ B]. destruct (B F1) as [_ [B2|(u & r0 & n & U1 & U2 & U3)]]; [lia|].
+        assert (u = t) by (apply (UQ u n U2)). subst u. rewrite Hin in U2. inversion U2; subst n. cbn [lowp] in U3. lia.
+      + intros y Py Hy. destruct (R2 y Py Hy) as [A|A]; [left; apply FM; exact A|right; apply PM; exact A].
+      + intros y Py Hy. change (stp s' y) with (stp s y) in Hy. change (stp s' r) with (stp s r) in Hy.
+        destruct (lt_eq_lt_dec (stp s y) (stp s x)) as [[L|E]|L].
+        * apply FM. destruct (Nat.eq_dec (stp s x) (wm s)) as [E|E]; [apply (J16 y); [exact Py|lia]|].
+          destruct N2 as (y1 & Em & S1); [lia|]. subst m. cbn [lowp] in Hy. lia.
+        * apply (J4 y x Py) in E. subst y. exact FX.
+        * apply FM. apply R3; [exact Py|]. cbn [lowp]. lia.
+    - (* I_nod *) intros y0. destruct (J19 y0) as [A B]. split.
+      + destruct A as [A|[P0 A]]; [left; exact A|right; split; [exact P0|]]. intros u r0 H. rewrite OW in H. eapply A; eauto.
+      + intros Hk Hf u. change (kind s' y0) with (kind s y0) in Hk. assert (y0 <> x) by (intros ->; congruence). rewrite FR in Hf by assumption.
+        destruct (B Hk Hf u) as [B1|[(r0 & Q1 & Q2 & Q3)|(y & Y1 & Y2 & Y3 & Y4)]]; [left; exact B1|right; left|right; right].
+        * exists r0. rewrite OW. split; [exact Q1|]. split; [exact Q2|eapply Nat.le_trans; [exact Q3|apply CM]].
+        * destruct (Nat.eq_dec y x) as [->|Hne].
+          -- destruct Y4 as [(t' & T1 & _)|(v & V1 & V2)]; [exfalso; exact (active_not_passed s t' x t II T1 Pb)|].
+             destruct Pb as [Pk|(w & W1 & W2)]; [congruence|]. rewrite (rel_fun _ _ _ _ V1 W1) in V2.
+             destruct (J15 t r Eo) as (Kr & _).
+             assert (stp s r < stp s y0).
+             { destruct (lt_eq_lt_dec (stp s y0) (stp s r)) as [[L|E]|L]; [|  |exact L].
+               - assert (Py0 : pub s y0) by (unfold pub; lia). specialize (R3 y0 Py0). cbn [lowp] in R3. rewrite R3 in Hf by lia. discriminate.
+               - assert (Py0 : pub s y0) by (unfold pub; lia). apply (J4 y0 r Py0) in E. subst y0. congruence. }
+             assert (r <> x) by (intros ->; lia).
+             exists r. rewrite FR by assumption. split; [exact Kr|]. split; [split; [exact Pr|assumption]|].
+             split; [exact Fr|]. left. exists t. rewrite OW. split; [exact Eo|]. eapply Nat.le_trans; [exact V2|]. eapply Nat.le_trans; [apply W2|apply CM].
+          -- exists y. rewrite FR by exact Hne. split; [exact Y1|]. split; [exact Y2|]. split; [exact Y3|].
+             destruct Y4 as [(t' & T1 & T2)|Y4]; [left|right; exact Y4]. exists t'. rewrite OW. split; [exact T1|eapply Nat.le_trans; [exact T2|apply CM]].
+    - (* I_cas *) intros u y g0 e0 H. eqd u t; [rewrite PCt in H; discriminate|]. rewrite PC in H by exact E. apply (J20 u y g0 e0 H).
+    - reflexivity.
+    - (* I_nodw *) intros y. destruct (J22 y) as [A|[A|(u & A)]]; [left; exact A|right; left; apply FM; exact A|right; left].
+      assert (Hiu : inrec (pcT s u) = Some (S y)) by (destruct A as [A|[m0 A]]; rewrite A; reflexivity).
+      assert (u = t) by (apply (UQ u (S y) Hiu)). subst u. rewrite Hin in Hiu. inversion Hiu; subst y. exact FX.
+  Qed.
+
+  Lemma step_AStn s t : Inv s -> ok s (AStn t) -> Inv (step s (AStn t)).
+  Proof.
+    intros I Hok. destruct (ok_tag _ _ Hok) as [Ht Htag]. cbn [actor at_tag] in *.
+    unfold ok, okb in Hok. cbn [actor] in Hok. apply andb_true_iff in Hok as [_ Hok].
+    unfold pcT in Htag. destruct (pc (ths s t)) eqn:Ep; try discriminate. clear Htag.
+    apply Nat.eqb_eq in Hok. subst n.
+    pose proof (I_pc _ I t) as Hq. unfold pcT in Hq. rewrite Ep in Hq.
+    destruct (ownT s t) as [|r] eqn:Eo; [congruence|]. clear Hq.
+    assert (Hin : inrec (pcT s t) = Some 0) by (unfold pcT; rewrite Ep; reflexivity).
+    destruct (I_recl _ I t r 0 Eo Hin) as (_ & R2 & R3 & _). cbn [lowp] in R3.
+    destruct (I_own _ I t r Eo) as (Kr & Pr & Fr & Cr & Or & Vr & Wr).
+    unfold step, store. unfold ownT in Eo. rewrite Eo. cbn [pred]. fold (ownT s t) in Eo.
+    set (s' := St _ _ _ _ _ _ _ _ _ _ _ _ _ _).
+    assert (CM : forall u, vle (clk s u) (clk s' u)).
+    { intros u. unfold s'. cbn [clk]. unfold fupd. eqd u t; [apply vle_inc|apply vle_refl]. }
+    assert (OW : forall u, ownT s' u = ownT s u).
+    { intros u. unfold s', ownT. cbn [ths]. unfold fupd. eqd u t; [cbn [own]; symmetry; exact Eo|reflexivity]. }
+    assert (PC : forall u, u <> t -> pcT s' u = pcT s u) by (intros u Hu; unfold s', pcT; cbn [ths]; rewrite fupd_ne by exact Hu; reflexivity).
+    assert (PCt : pcT s' t = USto) by (unfold s', pcT; cbn [ths]; rewrite fupd_eq; reflexivity).
+    assert (HN : forall y, y <> r -> hs s' (L_nx y) = hs s (L_nx y)).
+    { intros y Hy. unfold s'. cbn [hs]. rewrite fupd_ne by (unfold L_nx; lia). reflexivity. }
+    assert (HO : forall y, hs s' (L_ow y) = hs s (L_ow y)).
+    { intros y. unfold s'. cbn [hs]. rewrite fupd_ne by (unfold L_nx, L_ow; lia). reflexivity. }
+    assert (HX : hs s' (L_nx r) = store_msg (o_u_stn o) t (clk s t) (pz 0) :: hs s (L_nx r)) by (unfold s'; cbn [hs]; rewrite fupd_eq; reflexivity).
+    assert (PM : forall u y, passed s u y -> passed s' u y).
+    { intros u y [H|(v & (m0 & M1 & M2) & H2)]; [left; exact H|right]. exists v. split; [|eapply vle_trans; [exact H2|apply CM]].
+      exists m0. split; [|exact M2]. unfold s'. cbn [hs]. rewrite fupd_ne by (unfold L_nx, L_ow; lia). exact M1. }
+    assert (UQ : forall u n0, inrec (pcT s u) = Some n0 -> u = t).
+    { intros u n0 Hu. destruct (inrec_own s u n0 I Hu) as [ru Eu]. symmetry. eapply recl_unique; eauto. }
+    assert (NA : forall u r', ownT s u = S r' -> stp s r <= stp s r').
+    { intros u r' H. destruct (I_own _ I u r' H) as (_ & P & F & _). destruct (le_lt_dec (stp s r) (stp s r')) as [L|L]; [exact L|exfalso].
+      destruct (R2 r' P L) as [A|A]; [congruence|]. exact (active_not_passed s u r' t I H A). }
+    pose proof I as II.
+    destruct I as [J1 J2 J3 J4 J5 J6 J7 J8 J9 J10 J11 J12 J13 J14 J15 J16 J17 J18 J19 J20 J21 J22].
+    constructor; try assumption.
+    - (* I_seen *) intros u l. unfold s'. cbn [seen hs]. specialize (J1 u l). destruct (Nat.eq_dec l (L_nx r)) as [->|Hl].
+      + rewrite fupd_eq. cbn [length]. unfold fupd at 1. eqd u t; [rewrite fupd_eq; lia|lia].
+      + rewrite (fupd_ne (hs s)) by exact Hl. unfold fupd at 1. eqd u t; [rewrite fupd_ne by exact Hl; exact J1|exact J1].
+    - (* I_wm *) change (wm s') with (stp s r). unfold s'. cbn [hs]. rewrite fupd_ne by (unfold L_nx, L_ZH; lia).
+      destruct (J3 r) as [A _]. unfold pub in Pr. lia.
+    - (* I_fresh *) intros y Hy. change (nrec s') with (nrec s) in Hy. assert (y <> r) by (intros ->; specialize (proj2 (J3 r) Pr); lia).
+      rewrite HN, HO by assumption. apply J8. exact Hy.
+    - (* I_reg *) intros u y e0 H. rewrite OW. eqd u t; [rewrite PCt in H; discriminate|]. rewrite PC in H by exact E. apply J9. exact H.
+    - (* I_pc *) intros u. rewrite OW. eqd u t; [rewrite PCt, Eo; discriminate|rewrite PC by exact E; apply J10].
+    - (* I_rec *) intros y Hy Fy. destruct (J11 y Hy Fy) as (A & B & C & D). split; [exact A|]. split; [eapply Nat.le_trans; [exact B|apply CM]|]. split; [exact C|].
+      intros u. destruct (D u) as [D1|[D1 D2]]; [left; exact D1|right]. split; [eapply Nat.le_trans; [exact D1|apply CM]|].
+      eqd u t; [exfalso; unfold pcT in D2; rewrite Ep in D2; destruct D2 as [D2|[m0 D2]]; discriminate|rewrite PC by exact E; exact D2].
+    - (* I_nx *) intros y j m0 H. change (crt s' y) with (crt s y). change (kind s' y) with (kind s y). change (pubv s' y) with (pubv s y).
+      destruct (Nat.eq_dec y r) as [->|Hy].
+      + rewrite HX in H. destruct j as [|j]; cbn in H.
+        * inversion H; subst m0. unfold store_msg. cbn [mwho mwhen]. rewrite Cr. split; [reflexivity|]. split; [|intros Hk; congruence].
+          unfold s'. cbn [clk]. rewrite fupd_eq, vinc_self. lia.
+        * destruct (J12 r j m0 H) as (A & B & C). split; [exact A|]. split; [eapply Nat.le_trans; [exact B|apply CM]|exact C].
+      + rewrite HN in H by exact Hy. destruct (J12 y j m0 H) as (A & B & C). split; [exact A|]. split; [eapply Nat.le_trans; [exact B|apply CM]|exact C].
+    - (* I_nxv *) intros y Py Hw. change (wm s') with (stp s r) in *. change (stp s' y) with (stp s y) in *. unfold nxt_ok. change (wm s') with (stp s r).
+      destruct (Nat.eq_dec y r) as [->|Hy].
+      + unfold nvl. rewrite HX. unfold read_val. cbn [nth_error store_msg mval]. rewrite zp_pz. split; [reflexivity|]. change (stp s' r) with (stp s r). lia.
+      + unfold nvl. rewrite HN by exact Hy. change (stp s' y) with (stp s y).
+        assert (stp s y <> stp s r) by (intros E; apply Hy; apply (J4 y r Py E)).
+        destruct (J13 y Py ltac:(lia)) as [A B]. split; [intros E; contradiction|]. intros L. destruct B as (y1 & B1 & B2); [lia|]. exists y1. auto.
+    - (* I_ow *) intros y. rewrite HO. assert (RL : forall w, rel s' y w <-> rel s y w) by (intros w; unfold rel; rewrite HO; tauto).
+      destruct (J14 y) as (A & B & C). split; [destruct A as [A|[w A]]; [left; exact A|right; exists w; apply RL; exact A]|]. split.
+      + intros w Hr. apply RL in Hr. destruct (B w Hr) as (B1 & B2 & B3). split; [exact B1|]. split; [exact B2|].
+        assert (y <> r) by (intros ->; destruct Hr as (m0 & M1 & _); congruence). rewrite HN by assumption. exact B3.
+      + intros H1 H2 H3. destruct (C H1 H2 H3) as [u Hu]. exists u. rewrite OW. exact Hu.
+    - (* I_own *) intros u r0 H. rewrite OW in H. rewrite HO. destruct (J15 u r0 H) as (A & B & C & D & F & G & K).
+      split; [exact A|]. split; [exact B|]. split; [exact C|]. split; [exact D|]. split; [exact F|]. split; [eapply vle_trans; [exact G|apply CM]|].
+      change (wm s') with (stp s r). apply (NA u r0 H).
+    - (* I_free *) intros y. change (wm s') with (stp s r). destruct (J16 y) as [A B]. split; [intros P L; apply R3; [exact P|split; [exact P|exact L]]|].
+      intros Fy. destruct (B Fy) as [P B2]. split; [exact P|]. left. change (stp s' y) with (stp s y).
+      destruct B2 as [B2|(u & r0 & n & U1 & U2 & U3)]; [lia|].
+      assert (u = t) by (apply (UQ u n U2)). subst u. assert (r0 = r) by congruence. subst r0. lia.
+    - (* I_scan *) intros u ru n c b H1 H2. rewrite OW in H1. assert (u <> t) by (intros ->; rewrite PCt in H2; discriminate).
+      rewrite PC in H2 by assumption. destruct (J17 u ru n c b H1 H2) as (z & A & B & C & D & F & G & K). subst n.
+      exists z. change (wm s') with (stp s r). split; [reflexivity|]. split; [exact B|]. split; [|split; [exact D|split; [|split; [|exact K]]]].
+      + change (stp s' z) with (stp s z). change (stp s' ru) with (stp s ru). split; [|lia].
+        destruct (le_lt_dec (stp s r) (stp s z)) as [L|L]; [exact L|exfalso]. exact (scan_not_below s t r 0 u ru z c b II Eo Hin H1 H2 L).
+      + intros y Py Hy. apply PM. apply F; assumption.
+      + intros Hb. apply PM. apply G. exact Hb.
+    - (* I_recl *) intros u r0 n H1 H2. exfalso. eqd u t; [rewrite PCt in H2; discriminate|]. rewrite PC in H2 by exact E. apply E. apply (UQ u n H2).
+    - (* I_nod *) intros y0. destruct (J19 y0) as [A B]. split.
+      + destruct A as [A|[P0 A]]; [left; exact A|right; split; [exact P0|]]. intros u r0 H. rewrite OW in H. eapply A; eauto.
+      + intros Hk Hf u. destruct (B Hk Hf u) as [B1|[(r0 & Q1 & Q2 & Q3)|(y & Y1 & Y2 & Y3 & Y4)]]; [left; exact B1|right; left|right; right].
+        * exists r0. rewrite OW. split; [exact Q1|]. split; [exact Q2|eapply Nat.le_trans; [exact Q3|apply CM]].
+        * exists y. split; [exact Y1|]. split; [exact Y2|]. split; [exact Y3|].
+          destruct Y4 as [(t' & T1 & T2)|(v & (m0 & M1 & M2) & V2)]; [left|right].
+          -- exists t'. rewrite OW. split; [exact T1|eapply Nat.le_trans; [exact T2|apply CM]].
+          -- exists v. split; [exists m0; rewrite HO; auto|exact V2].
+    - (* I_cas *) intros u y g0 e0 H. eqd u t; [rewrite PCt in H; discriminate|]. rewrite PC in H by exact E.
+      assert (y <> r) by (intros ->; destruct (J9 u r e0) as (_ & Q & _); [rewrite H; reflexivity|unfold pub in Pr; lia]).
+      unfold nvl. rewrite HN by assumption. apply (J20 u y g0 e0 H).
+    - (* I_nodw *) intros y. destruct (J22 y) as [A|[A|(u & A)]]; [left; exact A|right; left; exact A|right; right].
+      exists u. assert (u <> t) by (intros ->; unfold pcT in A; rewrite Ep in A; destruct A as [A|[m0 A]]; discriminate). rewrite PC by assumption. exact A.
+  Qed.
+
+  Lemma step_ASto s t : Inv s -> ok s (ASto t) -> Inv (step s (ASto t)).
+  Proof.
+    intros I Hok. destruct (ok_tag _ _ Hok) as [Ht Htag]. cbn [actor at_tag] in *.
+    unfold pcT in Htag. destruct (pc (ths s t)) eqn:Ep; try discriminate. clear Htag.
+    pose proof (I_pc _ I t) as Hq. unfold pcT in Hq. rewrite Ep in Hq.
+    destruct (ownT s t) as [|r] eqn:Eo; [congruence|]. clear Hq.
+    destruct (I_own _ I t r Eo) as (Kr & Pr & Fr & Cr & Or & Vr & Wr).
+    unfold step, store. cbv beta iota zeta. unfold ownT in Eo. rewrite Eo. cbn [pred]. fold (ownT s t) in Eo. rewrite Or. cbn [length].
+    set (msg := store_msg (o_u_sto o) t (clk s t) (pz 0)).
+    set (s' := set _ _ _ _ _ _).
+    assert (Em : mval msg = 0%Z /\ mrel msg = Some (clk s t)) by (unfold msg, store_msg; cbn [mval mrel]; rewrite H_sto_rel; split; reflexivity).
+    assert (CM : forall u, vle (clk s u) (clk s' u)).
+    { intros u. unfold s', set. cbn [clk]. unfold fupd. eqd u t; [apply vle_inc|apply vle_refl]. }
+    assert (OWt : ownT s' t = 0) by (unfold s', set, ownT; cbn [ths]; rewrite fupd_eq; reflexivity).
+    assert (OW : forall u, u <> t -> ownT s' u = ownT s u) by (intros u Hu; unfold s', set, ownT; cbn [ths]; rewrite fupd_ne by exact Hu; reflexivity).
+    assert (PC : forall u, u <> t -> pcT s' u = pcT s u) by (intros u Hu; unfold s', set, pcT; cbn [ths]; rewrite fupd_ne by exact Hu; reflexivity).
+    assert (PCt : pcT s' t = Idle) by (unfold s', set, pcT; cbn [ths]; rewrite fupd_eq; reflexivity).
+    assert (HN : forall y, hs s' (L_nx y) = hs s (L_nx y)).
+    { intros y. unfold s', set. cbn [hs]. rewrite fupd_ne by (unfold L_nx, L_ow; lia). reflexivity. }
+    assert (HO : forall y, y <> r -> hs s' (L_ow y) = hs s (L_ow y)).
+    { intros y Hy. unfold s', set. cbn [hs]. rewrite fupd_ne by (unfold L_ow; lia). reflexivity. }
+    assert (HZ : hs s' L_ZH = hs s L_ZH).
+    { unfold s', set. cbn [hs]. rewrite fupd_ne by (unfold L_ow, L_ZH; lia). reflexivity. }
+    assert (HX : hs s' (L_ow r) = [msg]) by (unfold s', set; cbn [hs]; rewrite fupd_eq; reflexivity).
+    assert (RR : rel s' r (clk s t)) by (exists msg; rewrite HX; tauto).
+    assert (NR : forall y v, rel s y v -> y <> r) by (intros y v (m0 & M1 & _) ->; congruence).
+    assert (RL : forall y v, rel s y v -> rel s' y v).
+    { intros y v Hr. pose proof (NR y v Hr) as Hy. destruct Hr as (m0 & M1 & M2). exists m0. rewrite HO by exact Hy. auto. }
+    assert (PM : forall u y, passed s u y -> passed s' u y).
+    { intros u y [H|(v & H1 & H2)]; [left; exact H|right]. exists v. split; [apply RL; exact H1|eapply vle_trans; [exact H2|apply CM]]. }
+    assert (OWS : forall u r0, ownT s' u = S r0 -> u <> t /\ r0 <> r /\ ownT s u = S r0).
+    { intros u r0 H. eqd u t; [rewrite OWt in H; discriminate|]. rewrite OW in H by exact E. split; [exact E|]. split; [|exact H].
+      intros ->. apply E. eapply own_inj; eauto. }
+    pose proof I as II.
+    destruct I as [J1 J2 J3 J4 J5 J6 J7 J8 J9 J10 J11 J12 J13 J14 J15 J16 J17 J18 J19 J20 J21 J22].
+    constructor; try assumption.
+    - (* I_seen *) intros u l. unfold s', set. cbn [seen hs]. specialize (J1 u l). destruct (Nat.eq_dec l (L_ow r)) as [->|Hl].
+      + rewrite fupd_eq. cbn [length]. unfold fupd at 1. eqd u t; [rewrite fupd_eq; lia|rewrite Or in J1; cbn in J1; lia].
+      + rewrite (fupd_ne (hs s)) by exact Hl. unfold fupd at 1. eqd u t; [rewrite fupd_ne by exact Hl; exact J1|exact J1].
+    - (* I_fresh *) intros y Hy. change (nrec s') with (nrec s) in Hy. assert (y <> r) by (intros ->; specialize (proj2 (J3 r) Pr); lia).
+      rewrite HN, HO by assumption. apply J8. exact Hy.
+    - (* I_reg *) intros u y e0 H. eqd u t; [rewrite PCt in H; discriminate|]. rewrite PC in H by exact E. rewrite OW by exact E. apply J9. exact H.
+    - (* I_pc *) intros u. eqd u t; [rewrite PCt; exact OWt|rewrite PC, OW by exact E; apply J10].
+    - (* I_rec *) intros y Hy Fy. destruct (J11 y Hy Fy) as (A & B & C & D). split; [exact A|]. split; [eapply Nat.le_trans; [exact B|apply CM]|]. split; [exact C|].
+      intros u. destruct (D u) as [D1|[D1 D2]]; [left; exact D1|right]. split; [eapply Nat.le_trans; [exact D1|apply CM]|].
+      eqd u t; [exfalso; unfold pcT in D2; rewrite Ep in D2; destruct D2 as [D2|[m0 D2]]; discriminate|rewrite PC by exact E; exact D2].
+    - (* I_nx *) intros y j m0 H. rewrite HN in H. destruct (J12 y j m0 H) as (A & B & C). split; [exact A|]. split; [eapply Nat.le_trans; [exact B|apply CM]|exact C].
+    - (* I_nxv *) intros y Py Hw. unfold nxt_ok, nvl. rewrite HN. apply (J13 y Py Hw).
+    - (* I_ow *) intros y. destruct (Nat.eq_dec y r) as [->|Hy].
+      + split; [right; exists (clk s t); exact RR|]. split.
+        * intros v Hr. rewrite (rel_fun _ _ _ _ Hr RR). split; [exact Kr|]. split; [exact Pr|]. intros j m0 H. rewrite HN in H.
+          destruct (J12 r j m0 H) as (_ & B & _). change (crt s' r) with (crt s r). rewrite Cr in *. exact B.
+        * intros _ _ H. rewrite HX in H. discriminate.
+      + rewrite HO by exact Hy. destruct (J14 y) as (A & B & C). split; [destruct A as [A|[v A]]; [left; exact A|right; exists v; apply RL; exact A]|]. split.
+        * intros v (m0 & M1 & M2). rewrite HO in M1 by exact Hy. destruct (B v) as (B1 & B2 & B3); [exists m0; auto|]. split; [exact B1|]. split; [exact B2|]. rewrite HN. exact B3.
+        * intros H1 H2 H3. destruct (C H1 H2 H3) as [u Hu]. exists u. rewrite OW; [exact Hu|]. intros ->. congruence.
+    - (* I_own *) intros u r0 H. destruct (OWS u r0 H) as (Hu & Hr0 & H0). rewrite HO by exact Hr0.
+      destruct (J15 u r0 H0) as (A & B & C & D & F & G & K). split; [exact A|]. split; [exact B|]. split; [exact C|]. split; [exact D|]. split; [exact F|]. split; [eapply vle_trans; [exact G|apply CM]|exact K].
+    - (* I_free *) intros y. destruct (J16 y) as [A B]. split; [exact A|]. intros Fy. destruct (B Fy) as [P B2]. split; [exact P|].
+      destruct B2 as [B2|(u & r0 & n & U1 & U2 & U3)]; [left; exact B2|right].
+      assert (u <> t) by (intros ->; unfold pcT in U2; rewrite Ep in U2; discriminate). exists u, r0, n. rewrite OW, PC by assumption. auto.
+    - (* I_scan *) intros u ru n c b H1 H2. destruct (OWS u ru H1) as (Hu & _ & H0). rewrite PC in H2 by exact Hu.
+      destruct (J17 u ru n c b H0 H2) as (z & A & B & C & D & F & G & K). exists z.
+      split; [exact A|]. split; [exact B|]. split; [exact C|]. split; [exact D|]. split; [|split; [|exact K]].
+      + intros y Py Hy. apply PM. apply F; assumption.
+      + intros Hb. apply PM. apply G. exact Hb.
+    - (* I_recl *) intros u ru n H1 H2. destruct (OWS u ru H1) as (Hu & _ & H0). rewrite PC in H2 |- * by exact Hu.
+      destruct (J18 u ru n H0 H2) as (A & B & C & D). split; [exact A|]. split; [|split; [exact C|exact D]].
+      intros y Py Hy. destruct (B y Py Hy) as [Q|Q]; [left; exact Q|right; apply PM; exact Q].
+    - (* I_nod *) intros y0. destruct (J19 y0) as [A B]. split.
+      + destruct A as [A|[P0 A]]; [left; exact A|right; split; [exact P0|]]. intros u r0 H. destruct (OWS u r0 H) as (_ & _ & H0). eapply A; eauto.
+      + intros Hk Hf u. destruct (B Hk Hf u) as [B1|[(r0 & Q1 & Q2 & Q3)|(y & Y1 & Y2 & Y3 & Y4)]]; [left; exact B1| |].
+        * eqd u t.
+          -- assert (r0 = r) by congruence. subst r0. right. right. exists r. split; [exact Kr|]. split; [unfold pub in Pr; split; [exact Pr|exact Q2]|]. split; [exact Fr|].
+             right. exists (clk s t). split; [exact RR|exact Q3].
+          -- right. left. exists r0. rewrite OW by exact E. split; [exact Q1|]. split; [exact Q2|eapply Nat.le_trans; [exact Q3|apply CM]].
+        * right. right. exists y. split; [exact Y1|]. split; [exact Y2|]. split; [exact Y3|].
+          destruct Y4 as [(t' & T1 & T2)|(v & V1 & V2)]; [|right; exists v; split; [apply RL; exact V1|exact V2]].
+          eqd t' t.
+          -- assert (y = r) by congruence. subst y. right. exists (clk s t). split; [exact RR|exact T2].
+          -- left. exists t'. rewrite OW by exact E. split; [exact T1|eapply Nat.le_trans; [exact T2|apply CM]].
+    - (* I_cas *) intros u y g0 e0 H. eqd u t; [rewrite PCt in H; discriminate|]. rewrite PC in H by exact E. unfold nvl. rewrite HN. apply (J20 u y g0 e0 H).
+    - (* I_nodw *) intros y. destruct (J22 y) as [A|[A|(u & A)]]; [left; exact A|right; left; exact A|right; right].
+      exists u. assert (u <> t) by (intros ->; unfold pcT in A; rewrite Ep in A; destruct A as [A|[m0 A]]; discriminate). rewrite PC by assumption. exact A.
+  Qed.
+
+  Lemma step_inv s a : Inv s -> ok s a -> Inv (step s a).
+  Proof.
+    intros I Hok. destruct a.
+    - apply step_AReg; assumption.
+    - apply step_AEra; assumption.
+    - apply step_ALd; assumption.
+    - apply step_ASt; assumption.
+    - apply step_ACas; assumption.
+    - apply step_ARead; assumption.
+    - apply step_AULd; assumption.
+    - apply step_AOwn; assumption.
+    - apply step_ANx; assumption.
+    - apply step_ARd; assumption.
+    - apply step_ANxF; assumption.
+    - apply step_AFr; assumption.
+    - apply step_AStn; assumption.
+    - apply step_ASto; assumption.
+  Qed.
+  Lemma run_inv tr : forall s, Inv s -> trace_ok N o s tr -> Inv (run N o s tr).
+  Proof.
+    induction tr as [|a tr IH]; intros s I Hok; [exact I|]. unfold trace_ok in Hok. cbn [trace_okb] in Hok.
+    apply andb_true_iff in Hok as [H1 H2]. cbn [run fold_left]. apply IH; [apply step_inv; assumption|exact H2].
+  Qed.
+
+  (* every conforming trace is free of data races: on the plain fields of the records (construction,
+     the reclaimer's read of zombie_node, destroy / deallocate), on the erased nodes (readers' reads
+     against the reclaimer's free), and every atomic access to a record's field happens-after the
+     record's construction *)
+  Theorem log_publication tr : trace_ok N o init tr -> race (run N o init tr) = false.
+  Proof. intros H. apply (I_race _ (run_inv tr init Inv_init H)). Qed.
+
+  (* the scan's load of next - the field written by the RELAXED pre-publication store - reads the newest
+     message: the scanning thread has acquired the record's publication, and coherence does the rest *)
+  Theorem scan_reads_newest tr t x c m ch : trace_ok N o init tr ->
+    let s := run N o init tr in
+    pcT s t = UNx (S x) c -> lidx m (ssc_nx o) (hs s (L_nx x)) (clk s t) (seen s t (L_nx x)) ch = 0.
+  Proof.
+    intros H s Hp. pose proof (run_inv tr init Inv_init H) as I. fold s in I.
+    pose proof (I_pc _ I t) as Q. rewrite Hp in Q. destruct (ownT s t) as [|r] eqn:Eo; [congruence|].
+    destruct (I_scan _ I t r (S x) c true Eo) as (z & E & Pz & Sz & _ & _ & Pb & _); [rewrite Hp; reflexivity|].
+    inversion E; subst z. apply nx_newest; [exact I|]. right. split; [exact Pz|]. split; [|apply Pb; reflexivity].
+    eapply knows_older; eauto. lia.
+  Qed.
+
+  (* a reclaimer's clock dominates the release of every record it frees or walks over: the frees
+     happen-after everything the released readers did *)
+  Theorem reclaim_after_release tr t r n y v : trace_ok N o init tr ->
+    let s := run N o init tr in
+    ownT s t = S r -> inrec (pcT s t) = Some n -> pub s y -> stp s y < stp s r -> freed s y = false ->
+    rel s y v -> vle v (clk s t).
+  Proof.
+    intros H s Ho Hi Py Hy Fy Hr. pose proof (run_inv tr init Inv_init H) as I. fold s in I.
+    destruct (I_recl _ I t r n Ho Hi) as (_ & R2 & _). destruct (R2 y Py Hy) as [A|[A|(w & W1 & W2)]]; [congruence| |].
+    - destruct (I_ow _ I y) as (_ & B & _). destruct (B v Hr) as (B1 & _). congruence.
+    - rewrite (rel_fun _ _ _ _ Hr W1). exact W2.
+  Qed.
+End Sufficient.
+
+(* ---------- the source's orders ---------- *)
+Theorem rcu_log_publication N tr : trace_ok N rcu_orders init tr -> race (run N rcu_orders init tr) = false.
+Proof. apply log_publication; reflexivity. Qed.
+
+(* what is actually needed: the two CASes release and acquire, owner.store(nullptr) releases, the scan's
+   owner load acquires; every other site - the three relaxed ones included - may have any order *)
+Theorem rcu_log_sufficient_orders N o tr :
+  is_rel (o_r_cas o) = true -> is_acq (o_r_cas o) = true -> is_rel (o_e_cas o) = true -> is_acq (o_e_cas o) = true ->
+  is_rel (o_u_sto o) = true -> is_acq (o_s_own o) = true ->
+  trace_ok N o init tr -> race (run N o init tr) = false.
+Proof. intros. eapply log_publication; eauto. Qed.
+
+Theorem rcu_scan_reads_newest N tr t x c m ch : trace_ok N rcu_orders init tr ->
+  let s := run N rcu_orders init tr in
+  pc (ths s t) = UNx (S x) c ->
+  lidx m (ssc_nx rcu_orders) (hs s (L_nx x)) (clk s t) (seen s t (L_nx x)) ch = 0.
+Proof. intros H s Hp. apply (scan_reads_newest N rcu_orders) with (c := c); try reflexivity; assumption. Qed.
+
+(* ---------- push_back's relaxed load of m_tail ---------- *)
+(* m_tail is loaded (memory_order_relaxed in push_back / emplace_back) and stored only under
+   m_write_mutex.  Tiny machine: lock / relaxed load (any coherence-allowed message) / store (any order) /
+   unlock, any number of threads; [tstale] records whether some load read a message other than the newest. *)
+Inductive tact := TLock (t : nat) | TLoad (t ch : nat) | TStore (t : nat) (v : Z) | TUnlock (t : nat).
+Record tst := TSt { tclk : nat -> vc; thist : hist; tseen : nat -> nat; town : option nat; tmclk : vc; tstale : bool }.
+Definition tinit : tst := TSt clk0 [] (fun _ => 0) None vzero false.
+Definition tstep (st_mo : mo) (s : tst) (a : tact) : tst :=
+  match a with
+  | TLock t => TSt (fupd (tclk s) t (vjoin (tclk s t) (tmclk s))) (thist s) (tseen s) (Some t) (tmclk s) (tstale s)
+  | TLoad t ch =>
+    let i := pick true (thist s) (tclk s t) (tseen s t) ch in
+    TSt (fupd (tclk s) t (read_clock Relaxed (thist s) i (tclk s t))) (thist s)
+        (fupd (tseen s) t (read_stamp (thist s) i)) (town s) (tmclk s) (tstale s || negb (Nat.eqb i 0))
+  | TStore t v =>
+    TSt (fupd (tclk s) t (vinc (tclk s t) t)) (store_msg st_mo t (tclk s t) v :: thist s)
+        (fupd (tseen s) t (S (length (thist s)))) (town s) (tmclk s) (tstale s)
+  | TUnlock t => TSt (fupd (tclk s) t (vinc (tclk s t) t)) (thist s) (tseen s) None (vjoin (tmclk s) (tclk s t)) (tstale s)
+  end.
+Definition tokb (s : tst) (a : tact) : bool :=
+  match a with
+  | TLock _ => match town s with None => true | Some _ => false end
+  | TLoad t _ | TStore t _ | TUnlock t => match town s with Some u => Nat.eqb u t | None => false end
+  end.
+Fixpoint ttrace_okb (st_mo : mo) (s : tst) (tr : list tact) : bool :=
+  match tr with [] => true | a :: r => tokb s a && ttrace_okb st_mo (tstep st_mo s a) r end.
+Definition trun (st_mo : mo) (s : tst) (tr : list tact) : tst := fold_left (tstep st_mo) tr s.
+
+Record TInv (s : tst) : Prop := {
+  T_seen : forall t, tseen s t <= length (thist s);
+  T_known : forall m, In m (thist s) ->
+            match town s with Some t => known (tclk s t) m = true | None => known (tmclk s) m = true end;
+  T_stale : tstale s = false
+}.
+Lemma known_mono c c' m : vle c c' -> known c m = true -> known c' m = true.
+Proof. unfold known. intros H K. apply Nat.leb_le in K. apply Nat.leb_le. specialize (H (mwho m)). lia. Qed.
+
+Lemma tstep_inv st_mo s a : TInv s -> tokb s a = true -> TInv (tstep st_mo s a).
+Proof.
+  intros [A B C] Hok. destruct a as [t|t ch|t v|t]; cbn [tstep tokb] in *.
+  - destruct (town s) eqn:Eo; [discriminate|]. constructor; cbn; auto.
+    intros m Hm. rewrite fupd_eq. eapply known_mono; [apply vle_join_r|apply B; exact Hm].
+  - destruct (town s) as [u|] eqn:Eo; [|discriminate]. apply Nat.eqb_eq in Hok. subst u.
+    assert (Hi : pick true (thist s) (tclk s t) (tseen s t) ch = 0).
+    { destruct (thist s) as [|m0 h'] eqn:Eh.
+      - destruct (pick_bounds true [] (tclk s t) (tseen s t) ch) as [P _]; [exact (A t)|]. cbn in P. lia.
+      - pose proof (pick_known true (m0 :: h') (tclk s t) (tseen s t) ch 0 m0) as P.
+        specialize (P (A t) eq_refl (B m0 (or_introl eq_refl))). lia. }
+    rewrite Hi. constructor; cbn; auto.
+    + intros u. unfold fupd, read_stamp. destruct (Nat.eqb u t); [lia|apply A].
+    + intros m Hm. rewrite fupd_eq. eapply known_mono; [apply read_clock_mono|apply B; exact Hm].
+    + rewrite C. reflexivity.
+  - destruct (town s) as [u|] eqn:Eo; [|discriminate]. apply Nat.eqb_eq in Hok. subst u.
+    constructor; cbn; auto.
+    + intros u. unfold fupd. destruct (Nat.eqb u t); [lia|specialize (A u); lia].
+    + intros m [<-|Hm]; rewrite fupd_eq.
+      * unfold known, store_msg. cbn. apply Nat.leb_le. rewrite vinc_self. lia.
+      * eapply known_mono; [apply vle_inc|apply B; exact Hm].
+  - destruct (town s) as [u|] eqn:Eo; [|discriminate]. apply Nat.eqb_eq in Hok. subst u.
+    constructor; cbn; auto.
+    intros m Hm. eapply known_mono; [apply vle_join_r|apply B; exact Hm].
+Qed.
+
+(* every relaxed load of m_tail reads the newest store: the mutex orders every store before it
+   (happens-before through unlock / lock) and coherence forbids reading anything older *)
+Theorem rcu_tail_relaxed_ok st_mo tr : ttrace_okb st_mo tinit tr = true -> tstale (trun st_mo tinit tr) = false.
+Proof.
+  assert (G : forall tr s, TInv s -> ttrace_okb st_mo s tr = true -> TInv (trun st_mo s tr)).
+  { induction tr0 as [|a r IH]; intros s I H; [exact I|]. cbn in H. apply andb_true_iff in H as [H1 H2].
+    cbn [trun fold_left]. apply IH; [apply tstep_inv; assumption|exact H2]. }
+  intros H. apply (T_stale _ (G tr tinit ltac:(constructor; cbn; intros; auto; contradiction) H)).
+Qed.
+(* without the mutex's ordering the same load may be stale: thread 1 loads without holding the mutex *)
+Lemma rcu_tail_unlocked_load_stale :
+  tstale (trun SeqCst tinit [TLock 0; TStore 0 5%Z; TUnlock 0; TLoad 1 1]) = true.
+Proof. vm_compute. reflexivity. Qed.
